@@ -344,6 +344,14 @@ class FakeTransport:
         pass
 
 
+def _compact_tcp(peer):
+    """what a findValue answer would hand out for this stored announcement"""
+    try:
+        return bytes(peer.compact_address_tcp()).hex()
+    except Exception as e:  # noqa
+        return 'unusable: ' + type(e).__name__
+
+
 class Node:
     """a real KademliaProtocol with a populated routing table and data store, a fake transport and a
     virtual clock that the harness advances by one per datagram"""
@@ -361,8 +369,10 @@ class Node:
         for i in range(5):
             p = make_kademlia_peer(constants.generate_id(i + 100), f'9.9.{i}.9', 5000 + i)
             self.loop.run_until_complete(self.proto.routing_table.add_peer(p, None))
-            p2 = make_kademlia_peer(constants.generate_id(i + 100), f'9.9.{i}.9', 5000 + i, 3333)
-            self.proto.data_store.add_peer_to_blob(p2, constants.generate_id(i + 200))
+            # the announcement is held by the very object the routing table (and the lru cache of
+            # make_kademlia_peer) hands back for this identity, as after a real store request
+            p.update_tcp_port(3333)
+            self.proto.data_store.add_peer_to_blob(p, constants.generate_id(i + 200))
             self.known.append(p)
         self.proto.data_store.completed_blobs.add(constants.generate_id(300).hex())
         self.task_started = False
@@ -405,7 +415,7 @@ class Node:
             'routing': [[b.range_min, b.range_max, [pk(p) for p in b.peers]] for b in rt.buckets],
             'routing_pending': [sorted(map(pk, self.proto._to_add)), sorted(map(pk, self.proto._to_remove)),
                                 [(pk(p), t) for p, t in self.proto.ping_queue._pending_contacts.items()]],
-            'store': {k.hex(): [(pk(p), p.tcp_port, ts) for p, ts in v] for k, v in ds._data_store.items()},
+            'store': {k.hex(): [(pk(p), p.tcp_port, ts, _compact_tcp(p)) for p, ts in v] for k, v in ds._data_store.items()},
             'completed': sorted(ds.completed_blobs),
             'failures': {f'{a}:{p}': list(v) for (a, p), v in self.pm._rpc_failures.items()},
             'other': [str(dict(self.pm._last_replied.cache)), str(dict(self.pm._last_sent.cache)), str(dict(self.pm._last_requested.cache)),
@@ -460,6 +470,9 @@ class Node:
              'pending_before': before['routing_pending'], 'pending_after': after['routing_pending'], 'drained': drained},
             'replies': replies,
             'store_unchanged': after['store'] == before['store'] and after['completed'] == before['completed'],
+            'store_detail': None if after['store'] == before['store'] else
+            {k: {'before': before['store'].get(k), 'after': after['store'].get(k)}
+             for k in set(before['store']) | set(after['store']) if before['store'].get(k) != after['store'].get(k)},
             'other_unchanged': after['other'] == before['other'],
             'sent': after['sent'] - before['sent'],
         }
@@ -647,6 +660,8 @@ def gen_confused(rng):
 def gen_near_valid(rng):
     """a valid message re-encoded after one or two edits of a FIELD (lengths, types, presence, boundaries)"""
     rpc, node = rbytes(rng, 20), rbytes(rng, 48)
+    if rng.random() < 0.25:
+        node = constants.generate_id(100 + rng.randrange(5))     # a contact in the routing table
     pv = {b'protocolVersion': 1}
     t = rng.choice([0, 0, 0, 1, 2])
     if t == 0:
@@ -727,7 +742,7 @@ def gen_lexical(rng, valid):
         new = rng.choice([b'-%d' % n, b'-1', b'-2', b'-3', b'-0', b'+%d' % n, b' %d' % n, b'%d ' % n, b'\t%d\n' % n, b'0%d' % n,
                           b'00%d' % n, b'%d_' % n, b'_%d' % n, b'%d' % (n + 1), b'%d' % max(n - 1, 0), b'%d' % (n + 1000),
                           b'1_0' if n == 10 else b'%d_0' % (n // 10) if n % 10 == 0 and n else b'0_%d' % n, b'', b'-',
-                          b'9' * 30, b'9' * (4300 if rng.random() < 0.03 else 40), b'9' * (4301 if rng.random() < 0.03 else 41), b'0x%x' % n, b'%de0' % n, b'%d.0' % n, b'- %d' % n]) + b':'
+                          b'9' * 30, b'9' * (4300 if rng.random() < 0.01 else 40), b'9' * (4301 if rng.random() < 0.01 else 41), b'0x%x' % n, b'%de0' % n, b'%d.0' % n, b'- %d' % n]) + b':'
     else:
         ms = list(INT_RE.finditer(b))
         if not ms:
@@ -736,8 +751,47 @@ def gen_lexical(rng, valid):
         n = int(m.group(1))
         new = b'i' + rng.choice([b'-%d' % n, b'+%d' % n, b' %d ' % n, b'0%d' % n, b'-0', b'', b'-', b'+', b'%d_' % n, b'%d_0' % n,
                                  b'1__0', b'%d' % (n + 1), b'%d' % (n - 1), b'%d' % (n + 2), b'0x1', b'1e1', b'1.0', b'\x0b%d\x0c' % n,
-                                 b'9' * (4300 if rng.random() < 0.03 else 40), b'9' * (4301 if rng.random() < 0.03 else 41), b'--1', b'- 1']) + b'e'
+                                 b'9' * (4300 if rng.random() < 0.01 else 40), b'9' * (4301 if rng.random() < 0.01 else 41), b'--1', b'- 1']) + b'e'
     return b[:m.start()] + new + b[m.end():]
+
+
+def _req(rpc, node, method, args):
+    return raw_enc(((0, 0), (1, rpc), (2, node), (3, method), (4, list(args) + [((b'protocolVersion', 1),)])))
+
+
+BAD_PORTS = [_Raw(b'i0000e'), 0, -1, 65535, 65536, 70000, 2 ** 32, b'5001', b'', [5000], [], ((b'p', 1),), _Raw(b'i-0e'), _Raw(b'i 0 e')]
+
+
+def store_sequences(rng, count):
+    """three-step sequences: (1) peer P announces a blob with a valid store (tcp port 5000); (2) the same identity
+    (node id, ip, udp port) sends a store that is NOT valid -- every malformed tcp port (the one-byte mutation
+    i5000e -> i0000e, 0, negative, 65535 and above, bytes, list, dict, missing), a short hash, our own id is not
+    possible here -- or an unrelated invalid request; (3) a third party asks findValue for the blob.
+    yields (kind, prefix, datagram, sender, expect_peers)"""
+    for n in range(count):
+        in_table = n % 3 == 2
+        i = rng.randrange(2, 5)          # table contacts that are NOT rated good (a good contact that then fails once is
+        #                                  rated bad by the peer manager and its announcements are withheld)
+        p_id = constants.generate_id(100 + i) if in_table else rbytes(rng, 48)
+        p_addr = (f'9.9.{i}.9', 5000 + i) if in_table else rng.choice([('5.6.7.8', 4445), ('200.1.1.1', 65535)])
+        q_id, q_addr = rbytes(rng, 48), ('5.6.7.9', 4446)
+        blob, token = rbytes(rng, 48), rbytes(rng, 48)
+        valid = _req(rbytes(rng, 20), p_id, b'store', [blob, token, 5000, p_id, 0])
+        told = [bytes(int(x) for x in p_addr[0].split('.')) + (5000).to_bytes(2, 'big') + p_id]
+        c = n % (len(BAD_PORTS) + 4)
+        if c < len(BAD_PORTS):
+            bad = _req(rbytes(rng, 20), p_id, b'store', [blob, token, BAD_PORTS[c], p_id, 0])
+        elif c == len(BAD_PORTS):
+            bad = _req(rbytes(rng, 20), p_id, b'store', [blob, token])                       # port missing
+        elif c == len(BAD_PORTS) + 1:
+            bad = _req(rbytes(rng, 20), p_id, b'store', [rbytes(rng, 47), token, 6000, p_id, 0])  # short hash, other port
+        elif c == len(BAD_PORTS) + 2:
+            bad = _req(rbytes(rng, 20), p_id, b'stor', [blob, token, 6000, p_id, 0])           # unknown method
+        else:
+            bad = mutate(rng, valid, rng.choice([1, 2, 3]))
+        find = _req(rbytes(rng, 20), q_id, b'findValue', [blob])
+        yield 'sequence:store then invalid store', [(valid, p_addr)], bad, p_addr, None
+        yield 'sequence:findValue after invalid store', [(valid, p_addr), (bad, p_addr)], find, q_addr, (blob, told)
 
 
 def gen_oversized(rng):
@@ -798,7 +852,7 @@ SENDERS = [('5.6.7.8', 4445), ('9.9.0.9', 5000), ('9.9.1.9', 5001), ('127.0.0.1'
 GOOD_SENDERS = {('9.9.0.9', 5000), ('9.9.1.9', 5001), ('7.7.7.7', 7000)}
 # addresses make_kademlia_peer accepts (public IPv4, udp port >= 1024)
 USABLE_SENDERS = {('5.6.7.8', 4445), ('9.9.0.9', 5000), ('9.9.1.9', 5001), ('1.2.3.4', 4444), ('200.1.1.1', 65535), ('7.7.7.7', 7000),
-                  ('9.9.2.9', 5002)}
+                  ('9.9.2.9', 5002), ('9.9.3.9', 5003), ('9.9.4.9', 5004), ('5.6.7.9', 4446)}
 KNOWN_IDS = {constants.generate_id(i + 100).hex() for i in range(5)}
 
 
@@ -822,15 +876,24 @@ def violation_signature(data, obs, impl):
     return {'datagram': data.hex() if len(data) <= 400 else data[:400].hex() + '...', 'escaped': obs['escaped']}
 
 
-def check_datagram(ctx, data, sender, kind, expect=None):
-    """one datagram through the real handler, the real decode_datagram and the model; monitor + compare"""
+def check_datagram(ctx, data, sender, kind, expect=None, prefix=None, expect_peers=None):
+    """one datagram through the real handler, the real decode_datagram and the model; monitor + compare.
+    prefix: earlier datagrams [(bytes, sender), ...] of the same sequence, delivered to a FRESH node first;
+    expect_peers: (blob, [compact addresses]) the node must hand out in its findValue answer to this datagram"""
     run, model = ctx.run, ctx.model
-    if ctx.fed >= 400:
+    if ctx.fed >= 400 or prefix:
         ctx.fresh_node()
     ctx.fed += 1
     case = {'op': 'datagram', 'kind': kind, 'datagram': data.hex(), 'sender': list(sender)}
     if expect:
         case['expect'] = expect
+    if prefix:
+        case['prefix'] = [[d.hex(), list(a)] for d, a in prefix]
+        for d, a in prefix:
+            ctx.node.feed(d, tuple(a))
+        ctx.fed = 10 ** 9              # the next case starts from a fresh node again
+    if expect_peers:
+        case['expect_peers'] = [expect_peers[0].hex(), [x.hex() for x in expect_peers[1]]]
     impl = impl_decode(data)
     obs = ctx.node.feed(data, tuple(sender))
     mod = model.call('decode', fuel_lo=FUEL_LO, fuel_hi=FUEL_HI, data=data.hex(), own=OWN_ID.hex())
@@ -863,14 +926,25 @@ def check_datagram(ctx, data, sender, kind, expect=None):
         if not obs['failure_recorded']:
             bad = f"undecodable datagram ({impl['err']}): sender's failure was not recorded exactly once"
         elif not obs['store_unchanged']:
-            bad = 'undecodable datagram changed the data store'
+            bad = 'undecodable datagram changed the stored announcements: ' + json.dumps(obs['store_detail'], default=repr)[:500]
         elif not obs['other_unchanged'] or obs['sent']:
             bad = 'undecodable datagram changed other node state or caused a datagram to be sent'
     else:
         msg = impl['msg']
         is_store = msg['cls'] == 'request' and msg['method'] == ['b', b'store'.hex()] and request_is_valid(msg)
         if not obs['store_unchanged'] and not is_store:
-            bad = f"a {msg['cls']} datagram that is not a valid store request changed the data store"
+            bad = (f"a {msg['cls']} datagram that is not a valid store request changed the stored announcements "
+                   f"(deep comparison: peer identity, tcp port, timestamp, compact tcp address): {json.dumps(obs['store_detail'], default=repr)[:700]}")
+    if not bad and expect_peers:
+        told = None
+        try:
+            reply = ref_bdecode(ctx.node.transport.sent[-1][0]) if obs['sent'] == 1 else None
+            told = [bytes(x) for x in reply[3].get(expect_peers[0], [])] if reply and reply.get(0) == 1 else None
+        except Exception:  # noqa
+            pass
+        if told != list(expect_peers[1]):
+            bad = (f'after the earlier datagrams of this sequence the findValue answer for the announced blob is '
+                   f'{[x.hex() for x in told] if told is not None else obs["replies"]}, expected {[x.hex() for x in expect_peers[1]]}')
     ref = ref_read_message(data)
     if not bad and ref is not None:
         # a well-formed message according to the independent strict reader must be read identically
@@ -934,6 +1008,16 @@ def request_is_valid(msg):
             return False
         return method == b'findNode' or isinstance(kw.get(b'p', 0), int)
     return False
+
+
+def ep_applicable(prefix):
+    """the expected findValue answer (P at tcp port 5000) applies when the second datagram of the sequence is not
+    itself a valid store from P (a random mutation may leave it valid, or turn it into a different valid request)"""
+    try:
+        m = impl_message(decode_datagram(prefix[1][0]))
+    except Exception:  # noqa
+        return True
+    return not (m['cls'] == 'request' and m['method'] == ['b', b'store'.hex()] and request_is_valid(m))
 
 
 def canon_msg(m):
@@ -1175,7 +1259,8 @@ def main(run):
         'garbage into the REAL KademliaProtocol.datagram_received: every truncation and 1..3-byte mutation (replace / '
         'insert / delete, bencode-significant and UTF-8-boundary bytes) of valid datagrams, valid messages re-encoded after '
         'one length prefix or integer token rewritten (sign, whitespace, underscore, zeros, negative, off by one, huge), '
-        'or after one or two FIELD edits (id lengths 19/21/47/49, packet type, missing/extra/duplicated/bytes-keyed fields, method, '
+        'three-step sequences (valid store from P; then every malformed-port / invalid store or a mutation from the same '
+        'identity; then a third party\'s findValue, whose answer must still be P at its announced port), or after one or two FIELD edits (id lengths 19/21/47/49, packet type, missing/extra/duplicated/bytes-keyed fields, method, '
         'args shapes, store argument boundaries, invalid UTF-8 error texts), type-confused dictionaries '
         '(every field of every bencode type, keys reordered / missing / duplicated / bytes-vs-int), oversized fields, '
         'nesting <= 100 or >= 3000 (outcomes that depend on Python\'s recursion limit are detected by running the model '
@@ -1193,7 +1278,10 @@ def main(run):
 
     # -- corpus ---------------------------------------------------------------------------------
     for c in load_corpus():
-        check_datagram(ctx, bytes.fromhex(c['datagram']), tuple(c.get('sender', SENDERS[0])), 'corpus', c.get('expect'))
+        ep = c.get('expect_peers')
+        check_datagram(ctx, bytes.fromhex(c['datagram']), tuple(c.get('sender', SENDERS[0])), 'corpus', c.get('expect'),
+                       prefix=[(bytes.fromhex(d), tuple(a)) for d, a in c.get('prefix', [])] or None,
+                       expect_peers=(bytes.fromhex(ep[0]), [bytes.fromhex(x) for x in ep[1]]) if ep else None)
 
     for c in load_corpus('messages'):
         check_message(ctx, c['m'], message_from_desc(c['m']), kind='corpus')
@@ -1217,7 +1305,7 @@ def main(run):
     for b in valid[:n_trunc]:
         for cut in range(len(b)):
             check_datagram(ctx, b[:cut], SENDERS[cut % len(SENDERS)], 'truncation')
-    for i in range(vlib.scaled(T, 9000, 300000)):
+    for i in range(vlib.scaled(T, 7000, 300000)):
         b = valid[rng.randrange(len(valid))]
         k = rng.choice([1, 1, 2, 3])
         check_datagram(ctx, mutate(rng, b, k), rng.choice(SENDERS), 'mutation-%d' % k)
@@ -1231,18 +1319,22 @@ def main(run):
                         check_datagram(ctx, b[:pos] + bytes([v]) + b[pos + 1:], SENDERS[0], 'replace-exhaustive')
     lap('truncations+mutations')
     # -- structured garbage -------------------------------------------------------------------------
-    for i in range(vlib.scaled(T, 5000, 150000)):
+    for i in range(vlib.scaled(T, 4000, 150000)):
         check_datagram(ctx, gen_near_valid(rng), rng.choice(SENDERS), 'near-valid')
-    for i in range(vlib.scaled(T, 5000, 150000)):
+    for i in range(vlib.scaled(T, 4000, 150000)):
         check_datagram(ctx, gen_confused(rng), rng.choice(SENDERS), 'type-confused')
     lap('type-confused')
+    for kind, prefix, d, sender, ep in store_sequences(rng, vlib.scaled(T, 90, 3000)):
+        if kind.startswith('sequence:findValue') and not ep_applicable(prefix):
+            ep = None
+        check_datagram(ctx, d, sender, kind, prefix=prefix, expect_peers=ep)
     for i in range(vlib.scaled(T, 60, 1500)):
         check_datagram(ctx, gen_oversized(rng), rng.choice(SENDERS), 'oversized')
     lap('oversized')
     for i in range(vlib.scaled(T, 80, 1500)):
         check_datagram(ctx, gen_deep(rng), rng.choice(SENDERS), 'deep')
     lap('deep')
-    for i in range(vlib.scaled(T, 2500, 80000)):
+    for i in range(vlib.scaled(T, 2000, 80000)):
         check_datagram(ctx, gen_random(rng, 65536), rng.choice(SENDERS), 'random')
     lap('random')
     for n in (65535, 65536):
@@ -1341,7 +1433,10 @@ def replay(run, case):
     ctx = Ctx(run, model)
     op = case.get('op')
     if op == 'datagram':
-        check_datagram(ctx, bytes.fromhex(case['datagram']), tuple(case['sender']), case.get('kind', 'replay'), case.get('expect'))
+        ep = case.get('expect_peers')
+        check_datagram(ctx, bytes.fromhex(case['datagram']), tuple(case['sender']), case.get('kind', 'replay'), case.get('expect'),
+                       prefix=[(bytes.fromhex(d), tuple(a)) for d, a in case.get('prefix', [])] or None,
+                       expect_peers=(bytes.fromhex(ep[0]), [bytes.fromhex(x) for x in ep[1]]) if ep else None)
     elif op == 'message':
         desc = case['m']
         obj = message_from_desc(desc)
